@@ -4,4 +4,5 @@ import PvModel.Props.C13
 #print axioms Pv.Surface.C13_wildcard
 #print axioms Pv.Surface.C13_no_capture
 #print axioms Pv.Surface.C13_arm_local
+#print axioms Pv.Surface.C13_elab
 #print axioms Pv.Surface.C13_commit
